@@ -47,7 +47,7 @@ func main() {
 
 func cases(tier string) int {
 	if tier == "thorough" {
-		return 8000
+		return 60000
 	}
 	return 3000
 }
@@ -386,6 +386,23 @@ func run(c *harness.Ctx, i int) {
 	for _, o := range objs {
 		if o.ownFmt && !o.valid {
 			want[o.id.String()] = true
+		}
+	}
+	// every message must be about an invalid chunk: verify reports exactly those and nothing else
+	misplacedIDs := map[string]bool{}
+	for _, o := range objs {
+		if o.category == "misplaced" {
+			misplacedIDs[strings.TrimSuffix(filepath.Base(o.key), ".cacnk")] = true
+		}
+	}
+	for _, line := range strings.Split(strings.TrimSpace(msgs.String()), "\n") {
+		if strings.TrimSpace(line) != "" && !strings.Contains(line, "does not match") {
+			// a chunk-named file in a wrong directory makes verify look for that ID in its canonical place: not judged
+			if m := regexp.MustCompile(`chunk ([0-9a-f]{64}) missing from store`).FindStringSubmatch(line); m != nil && misplacedIDs[m[1]] {
+				continue
+			}
+			c.Violation("verify-unexpected-message", "verify (uncompressed=%v, n=%d) printed %q, which is not about a chunk whose content does not match its ID", uncompressed, n, line)
+			return
 		}
 	}
 	for id := range want {
